@@ -10,7 +10,7 @@ from vf.spec import AnyT, ObjectT, Program, Unspecified, canon
 PROP = "C08"
 SHARDS = {"quick": 8, "thorough": 16}
 TIME_CAP = {"quick": 70, "thorough": 900}
-REQUIRED = ["deser_pairs", "deser_no_copy_pairs", "deser_ctor_pairs", "deser_method_vs_function", "deser_pass_through", "alias_walks", "purity_checks", "ser_pairs", "ser_no_copy_pairs", "ser_check_type_pairs", "ser_pass_through_pairs", "ser_alias_walks", "programs"]
+REQUIRED = ["deser_pass_through_json_pairs", "deser_pairs", "deser_no_copy_pairs", "deser_ctor_pairs", "deser_method_vs_function", "deser_pass_through", "alias_walks", "purity_checks", "ser_pairs", "ser_no_copy_pairs", "ser_check_type_pairs", "ser_pass_through_pairs", "ser_alias_walks", "programs"]
 # compiled-tree node classes this workload is expected to reach: reported as coverage gaps when missing, never a verdict
 # (a renamed internal class must not turn into an alarm)
 EXPECTED_NODES = ["node:ListCheckOnlyMethod", "node:ListMethod", "node:MappingCheckOnly", "node:MappingMethod", "node:SimpleObjectMethod", "node:ObjectMethod", "node:FieldsConstructor"]
@@ -48,6 +48,14 @@ def out_sig(o):
     if o.kind == "verr":
         return ("verr", json.dumps(o.errors, sort_keys=True, default=str))
     return ("exc", o.exc)
+
+
+def out_sig_unordered(o):
+    """errors as a multiset: the relative order of the messages reported at one location by the alternatives of a union is not
+    part of the claim (wrapping one alternative in a type check moves its message)"""
+    if o.kind == "verr":
+        return ("verr", sorted(json.dumps(e, sort_keys=True, default=str) for e in o.errors))
+    return out_sig(o)
 
 
 def family(a):
@@ -181,6 +189,24 @@ def check_deser(env, prog, label, ndata):
             r = harness.call(methods["no_copy_off"], d)
             if r.kind == "ok":
                 values.append(r.value)
+    # deserialization pass_through of every class of the type that no JSON datum is an instance of: JSON data (valid and
+    # invalid) contain no such instance, so results and errors must be identical
+    classes = json_free_classes(prog)
+    if classes:
+        harness.reset_all()
+        kw = dict(base_kw)
+        plain = harness.call(deserialization_method, T, **kw)
+        pt = harness.call(deserialization_method, T, pass_through=tuple(classes), **kw)
+        if plain.kind == "ok" and pt.kind != "ok":
+            env.violation({"kind": "compile", "variant": "pass_through", "exc": pt.exc or "ValidationError", "site": pt.site}, {**wit0, "classes": [c.__name__ for c in classes], "outcome": pt.brief()})
+        elif plain.kind == "ok":
+            for d in data:
+                r1, r2 = harness.call(plain.value, d), harness.call(pt.value, d)
+                env.count("deser_pass_through_json_pairs")
+                if out_sig_unordered(r1) != out_sig_unordered(r2):
+                    env.violation({"kind": "pass-through-changes-result", "side": "deserialize", "data": "json-only", "plain": r1.kind, "with_pass_through": r2.kind},
+                                  {**wit0, "datum": d, "classes": [c.__name__ for c in classes], "plain": r1.brief(), "with_pass_through": r2.brief()})
+                    break
     # deserialization pass_through for dataclass instances appearing in the data
     if isinstance(t, ObjectT) and t.kind == "dataclass" and valid:
         from typing import List, get_origin
@@ -203,6 +229,32 @@ def check_deser(env, prog, label, ndata):
                 elif r2.kind == "ok" and r2.value[1] is not inst.value:
                     env.violation({"kind": "pass-through-instance-not-left-untouched"}, {**wit0, "datum": v})
     return values
+
+
+def json_free_classes(prog):
+    """runtime classes met in the type that no JSON datum is an instance of (so passing them through changes nothing for JSON data)"""
+    import datetime, decimal, ipaddress, pathlib, re, uuid
+    from vf.spec import Coll, EnumT, Std, SubPrim, Tup
+    std = {"uuid": uuid.UUID, "date": datetime.date, "datetime": datetime.datetime, "time": datetime.time, "decimal": decimal.Decimal, "bytes": bytes,
+           "path": pathlib.PurePath, "ipv4": ipaddress.IPv4Address, "ipv6": ipaddress.IPv6Address, "pattern": re.Pattern}
+    out = []
+    for n in prog.t.walk():
+        c = None
+        if isinstance(n, ObjectT) and n.kind in ("dataclass", "namedtuple"):
+            c = getattr(prog.module, n.name, None)
+        elif isinstance(n, (EnumT, SubPrim)):
+            c = getattr(prog.module, n.name, None)
+        elif isinstance(n, Std):
+            c = std.get(n.s)
+        elif isinstance(n, Tup) or (isinstance(n, Coll) and n.c in ("vartuple", "tuple")):
+            c = tuple
+        elif isinstance(n, Coll) and n.c in ("set", "mutset"):
+            c = set
+        elif isinstance(n, Coll) and n.c == "frozenset":
+            c = frozenset
+        if isinstance(c, type) and c not in out:
+            out.append(c)
+    return out
 
 
 PT_FLAGS = ["any", "collections", "dataclasses", "enums", "tuple"]
